@@ -411,7 +411,14 @@ def rule_r7(ctx):
                     ctx.r.violation(rid, "option-shape::%s::%s" % (label, o), "%s documents --%s without '=VALUE' although it takes one" % (label, o), label)
 
 
-RULES = [rule_r1, rule_r2, rule_r3, rule_r4, rule_r5, rule_r6, rule_r7]
+def rule_r9(ctx):
+    """Shared with C15.R5: an accepted setting is applied - clear_untrusted_proxy_headers / trusted_proxy install the
+    middleware, each adjustment passed to the parameter of the same meaning."""
+    from . import c15
+    c15.rule_r5(ctx, rid="C20.R9")
+
+
+RULES = [rule_r1, rule_r2, rule_r3, rule_r4, rule_r5, rule_r6, rule_r7, rule_r9]
 
 from ..selftest import M, T, V  # noqa: E402
 
